@@ -15,6 +15,8 @@ pub enum Ev {
     Commit { node: u32, index: u64, role: i32, term: u64 },
     /// at the moment leader `node` moved its commit index to `index`: which of its voters held that entry
     CommitQuorum { node: u32, index: u64, leader_term: u64, entry_term: u64, holders: Vec<u32>, voters: Vec<u32>, config_in_range: bool },
+    /// a BatchPromote entry at `index` was committed by leader `leader`: last log index of every promoted node at that instant
+    PromoteCommitted { leader: u32, index: u64, promoted: Vec<(u32, u64)> },
     NodeStart { node: u32, incarnation: u32, term: u64, voted_for: Option<(u32, u64)>, last_applied: u64, log_last: u64 },
     NodeStop { node: u32, incarnation: u32, graceful: bool },
     Fault { what: String },
